@@ -303,7 +303,7 @@ def generate(run_seed, tier):
         if 'FlatMie' in contribs and 'LeeMie' in contribs:
             contribs.remove(c.choice(['FlatMie', 'LeeMie']))
         mcfg = R.gen_model_cfg(c, family=fam, contribs=contribs)
-        mcfg['nlayers'] = c.randint(3, 6)
+        mcfg['nlayers'] = c.randint(2, 6)
         mcfg['opac']['ngrid'] = c.randint(12, 24)
         mcfg['clouds_pressure'] = 10 ** c.uniform(1, 5)
         # (FlatMie with an unset top pressure takes log10(-1) and cannot
